@@ -231,7 +231,9 @@ namespace detail
 	{
 		GLM_STATIC_ASSERT(std::numeric_limits<genIUType>::is_integer, "'mask' accepts only integer values");
 
-		return Bits >= static_cast<genIUType>(sizeof(genIUType) * 8) ? ~static_cast<genIUType>(0) : (static_cast<genIUType>(1) << Bits) - static_cast<genIUType>(1);
+		// Build the mask on the unsigned type: (1 << Bits) - 1 overflows a signed type when Bits is its width minus one
+		typedef typename detail::make_unsigned<genIUType>::type UT;
+		return Bits >= static_cast<genIUType>(sizeof(genIUType) * 8) ? ~static_cast<genIUType>(0) : static_cast<genIUType>((static_cast<UT>(1) << Bits) - static_cast<UT>(1));
 	}
 
 #if GLM_COMPILER & GLM_COMPILER_CLANG
